@@ -353,3 +353,304 @@ func ruleRunLengthClipped(r *Run) {
 	}
 	r.check(n >= 1, "labels:run-lengths-in-bounded-scans", fmt.Sprintf("%d", n), "none found: rule needs review", "-")
 }
+
+// ---------------------------------------------------------------------------------------------
+// C14 round e: the geometry of one down-sampling step.
+
+func init() {
+	register(ruleDef{ID: "R14.11", Prop: "C14", Tier: "quick", Floor: 2,
+		Title: "the parent of a block is found by an arithmetic shift, not a division: no signed `/ constant` is applied to a component of a block coordinate (dvid.ChunkPoint3d) in the labelmap and labelarray down-sampling code (a division rounds negative odd coordinates toward zero, into the wrong parent)",
+		Fn:    ruleParentByShift})
+	register(ruleDef{ID: "R14.12", Prop: "C14", Tier: "quick", Floor: 2,
+		Title: "the lower-resolution block is read at the scale it is written to: in the per-octant worker the scale handed to the block reader equals the scale of the key the result is put under",
+		Fn:    ruleLoresScaleAgrees})
+	register(ruleDef{ID: "R14.13", Prop: "C14", Tier: "quick", Floor: 2,
+		Title: "every group of octants votes into a block of its own: the block that receives a group's vote is produced (made empty, or read from the store) inside the loop over groups, never once per worker",
+		Fn:    ruleReceivingBlockPerGroup})
+	register(ruleDef{ID: "R14.14", Prop: "C14", Tier: "quick", Floor: 2,
+		Title: "an octant's place in its parent uses each axis's own size: the x, y and z offsets handed to the voting routine are computed from Size[0], Size[1] and Size[2] respectively",
+		Fn:    ruleOctantOffsetsPerAxis})
+}
+
+func ruleParentByShift(r *Run) {
+	w := r.W
+	n, shifts := 0, 0
+	for _, f := range w.RepoFuncs {
+		p := relPkg(pkgPathOf(f))
+		if (p != "datatype/labelmap" && p != "datatype/labelarray" && p != "datatype/common/downres") || len(f.Blocks) == 0 || strings.HasSuffix(w.fposFile(f), "_test.go") {
+			continue
+		}
+		isChunkComponent := func(v ssa.Value) bool {
+			switch x := stripConv(v).(type) {
+			case *ssa.UnOp:
+				if ia, ok := x.X.(*ssa.IndexAddr); ok {
+					return strings.HasSuffix(ia.X.Type().String(), "dvid.ChunkPoint3d")
+				}
+			case *ssa.Index:
+				return strings.HasSuffix(x.X.Type().String(), "dvid.ChunkPoint3d")
+			}
+			return false
+		}
+		k := 0
+		for _, b := range f.Blocks {
+			for _, in := range b.Instrs {
+				bo, ok := in.(*ssa.BinOp)
+				if !ok || !isChunkComponent(bo.X) {
+					continue
+				}
+				if _, isK := constInt(bo.Y); !isK {
+					continue
+				}
+				switch bo.Op {
+				case token.SHR:
+					shifts++
+				case token.QUO:
+					k++
+					n++
+					r.violation(fmt.Sprintf("%s:block-coordinate-divided#%d", fname(f), k),
+						"a component of a block coordinate is divided by a constant: for negative odd coordinates the division rounds toward zero, so the block lands in the wrong parent block and octant and the lower levels differ from the documented down-sampling", w.pos(bo.Pos()))
+				}
+			}
+		}
+	}
+	r.check(shifts >= 3, "downres:parent-coordinates-by-shift", fmt.Sprintf("%d shifts of block-coordinate components, %d divisions", shifts, n), "the shifts that compute parent coordinates were not found: rule needs review", "-")
+	r.check(true, "downres:scanned", "down-sampling packages scanned", "", "-")
+}
+
+func ruleLoresScaleAgrees(r *Run) {
+	w := r.W
+	n := 0
+	for _, f := range w.RepoFuncs {
+		p := relPkg(pkgPathOf(f))
+		if (p != "datatype/labelmap" && p != "datatype/labelarray") || len(f.Blocks) == 0 || strings.HasSuffix(w.fposFile(f), "_test.go") {
+			continue
+		}
+		var reads, writes []ssa.Value
+		var at ssa.Instruction
+		for _, c := range calls(f) {
+			callee := staticCallee(c)
+			if callee == nil {
+				continue
+			}
+			args := c.Common().Args
+			switch callee.Name() {
+			case "getSupervoxelBlock", "getLabelBlock":
+				if len(args) == 4 {
+					reads = append(reads, args[3])
+					at = c
+				}
+			case "NewBlockTKeyByCoord":
+				if len(args) == 2 {
+					writes = append(writes, args[0])
+				}
+			}
+		}
+		// the per-octant worker: it votes (calls Downres) and both reads and writes blocks
+		votes := false
+		for _, c := range calls(f) {
+			if callee := staticCallee(c); callee != nil && callee.Name() == "Downres" {
+				votes = true
+			}
+		}
+		if !votes || len(reads) == 0 || len(writes) == 0 {
+			continue
+		}
+		n++
+		same := true
+		ref := linCK(writes[0], 0)
+		for _, v := range append(reads, writes...) {
+			d := linCK(v, 0).add(ref, -1)
+			if !d.ok || len(d.terms) != 0 || d.c != 0 {
+				same = false
+			}
+		}
+		r.check(same, fname(f)+":lores-read-and-write-scale", "the block is read at the scale it is written to",
+			"the receiving block of a partial group is read at one scale and the result written at another: the octants that did not change are overwritten with data of the wrong level (or zeros)", w.pos(at.Pos()))
+	}
+	r.check(n >= 1, "downres:octant-workers", fmt.Sprintf("%d", n), "none found: rule needs review", "-")
+}
+
+func ruleReceivingBlockPerGroup(r *Run) {
+	w := r.W
+	n := 0
+	for _, f := range w.RepoFuncs {
+		p := relPkg(pkgPathOf(f))
+		if (p != "datatype/labelmap" && p != "datatype/labelarray") || len(f.Blocks) == 0 || strings.HasSuffix(w.fposFile(f), "_test.go") {
+			continue
+		}
+		for _, c := range calls(f) {
+			callee := staticCallee(c)
+			if callee == nil || callee.Name() != "Downres" || len(c.Common().Args) < 1 {
+				continue
+			}
+			h, set, _ := innermostLoop(f, c.Block())
+			if set == nil {
+				continue
+			}
+			_ = h
+			n++
+			ok := true
+			bad := ""
+			for _, rt := range roots(c.Common().Args[0], f) {
+				in, isInstr := rt.V.(ssa.Instruction)
+				if !isInstr || rt.Fn != f {
+					continue
+				}
+				if _, isCall := rt.V.(*ssa.Call); !isCall {
+					if ex, isEx := rt.V.(*ssa.Extract); isEx {
+						in = ex.Tuple.(ssa.Instruction)
+					} else {
+						continue
+					}
+				}
+				if !set[in.Block()] {
+					ok = false
+					bad = w.pos(in.Pos())
+				}
+			}
+			r.check(ok, fname(f)+":receiving-block-made-per-group", "the receiving block is produced inside the loop over groups",
+				"the block that receives the vote is made once outside the loop over groups ("+bad+"): the entries of the result map alias one block, so the next level up is voted from another group's data", w.pos(c.Pos()))
+		}
+	}
+	r.check(n >= 1, "downres:votes-in-loops", fmt.Sprintf("%d", n), "none found: rule needs review", "-")
+}
+
+func ruleOctantOffsetsPerAxis(r *Run) {
+	w := r.W
+	n := 0
+	for _, f := range w.RepoFuncs {
+		if relPkg(pkgPathOf(f)) != "datatype/common/labels" || len(f.Blocks) == 0 || strings.HasSuffix(w.fposFile(f), "_test.go") {
+			continue
+		}
+		for _, c := range calls(f) {
+			callee := staticCallee(c)
+			if callee == nil || callee.Name() != "downresArray" || len(c.Common().Args) != 6 {
+				continue
+			}
+			n++
+			ok := true
+			for axis := 0; axis < 3; axis++ {
+				arg := c.Common().Args[2+axis]
+				uses := map[int64]bool{}
+				for d := range dataDeps(arg) {
+					if ia, isIA := d.(*ssa.IndexAddr); isIA {
+						if fa, isFA := ia.X.(*ssa.FieldAddr); isFA {
+							if name, _, _ := fieldName(fa); name == "Size" {
+								if k, isK := constInt(ia.Index); isK {
+									uses[k] = true
+								}
+							}
+						}
+					}
+				}
+				if len(uses) > 0 && (!uses[int64(axis)] || len(uses) != 1) {
+					ok = false
+				}
+			}
+			r.check(ok, fname(f)+":octant-offsets-per-axis", "each offset uses its own axis's size",
+				"the offset of an octant inside its parent is computed from another axis's size: for blocks that are not cubes the octants are voted into the wrong place of the lower-resolution block", w.pos(c.Pos()))
+		}
+	}
+	r.check(n >= 1, "labels:votes-with-offsets", fmt.Sprintf("%d", n), "none found: rule needs review", "-")
+}
+
+func init() {
+	register(ruleDef{ID: "R14.15", Prop: "C14", Tier: "quick", Floor: 2,
+		Title: "what reached level 0 reaches the pyramid: in a function that opens a down-sampling mutation and stores blocks in a loop, no return is reachable from a store inside the loop without passing the mutation's Execute (or the test of the flag that switches down-sampling off)",
+		Fn:    ruleStoredBlocksDownsampled})
+}
+
+func ruleStoredBlocksDownsampled(r *Run) {
+	w := r.W
+	sinks := w.newSinks()
+	n := 0
+	for _, f := range w.RepoFuncs {
+		p := relPkg(pkgPathOf(f))
+		if (p != "datatype/labelmap" && p != "datatype/labelarray") || len(f.Blocks) == 0 || f.Parent() != nil || strings.HasSuffix(w.fposFile(f), "_test.go") {
+			continue
+		}
+		var exec ssa.Instruction
+		opens := false
+		for _, c := range calls(f) {
+			callee := staticCallee(c)
+			if callee == nil {
+				continue
+			}
+			if callee.Name() == "NewMutation" && relPkg(pkgPathOf(callee)) == "datatype/common/downres" {
+				opens = true
+			}
+			if callee.Name() == "Execute" && relPkg(pkgPathOf(callee)) == "datatype/common/downres" {
+				if _, isDefer := c.(*ssa.Defer); !isDefer {
+					exec = c
+				}
+			}
+		}
+		if !opens || exec == nil {
+			continue
+		}
+		// the flag that switches down-sampling off: a bool parameter tested by an If that dominates Execute
+		// (a parameter captured by a closure is spilled to a cell: then the test reads the cell)
+		paramOf := func(v ssa.Value) ssa.Value {
+			if prm, ok := v.(*ssa.Parameter); ok {
+				return prm
+			}
+			if ld, ok := v.(*ssa.UnOp); ok && ld.Op == token.MUL {
+				if al, ok := ld.X.(*ssa.Alloc); ok {
+					var only ssa.Value
+					cnt := 0
+					for _, ref := range *al.Referrers() {
+						if st, ok := ref.(*ssa.Store); ok && st.Addr == ssa.Value(al) {
+							cnt++
+							only = st.Val
+						}
+					}
+					if prm, ok := only.(*ssa.Parameter); ok && cnt == 1 {
+						return prm
+					}
+				}
+			}
+			return nil
+		}
+		var flag ssa.Value
+		for _, b := range f.Blocks {
+			if ifi, ok := b.Instrs[len(b.Instrs)-1].(*ssa.If); ok && b.Dominates(exec.Block()) {
+				if prm := paramOf(ifi.Cond); prm != nil {
+					flag = prm
+				}
+			}
+		}
+		barrier := func(x ssa.Instruction) bool {
+			if x == exec {
+				return true
+			}
+			if ifi, ok := x.(*ssa.If); ok && flag != nil && paramOf(ifi.Cond) == flag {
+				return true
+			}
+			return false
+		}
+		loops := naturalLoops(f)
+		inLoop := func(b *ssa.BasicBlock) bool {
+			for _, s := range loops {
+				if s[b] {
+					return true
+				}
+			}
+			return false
+		}
+		k := 0
+		for _, c := range calls(f) {
+			if _, isGo := c.(*ssa.Go); isGo {
+				continue
+			}
+			if !(sinks.isStorageWrite(c) || methodNameOf(c) == "PutCallback") || !inLoop(c.Block()) {
+				continue
+			}
+			k++
+			n++
+			p := findPath(f, c, barrier, func(x ssa.Instruction) bool { _, ok := x.(*ssa.Return); return ok }, allEdges)
+			r.check(p == nil, fmt.Sprintf("%s:block-store#%d:downsampled-before-return", fname(f), k), "every return after the store passes Execute or the switch that turns down-sampling off",
+				"a block is stored at level 0 inside the loop and the function can return (on a later malformed or failing block) without running the down-sampling: the lower-resolution levels no longer match level 0, and the instance reports idle", w.pos(c.Pos()), w.renderPath(p)...)
+		}
+	}
+	r.check(n >= 1, "label-types:block-stores-in-downres-loops", fmt.Sprintf("%d", n), "none found: rule needs review", "-")
+}
